@@ -21,6 +21,7 @@ import (
 func TestMain(m *testing.M) {
 	vh.Rule("rapid: default (ENCRYPT4) login configurations against the scripted peer: passwords of arbitrary bytes, length 0..key capacity (incl. passwords equal to / substrings of user, host, app name, '512', the program name), 0..3 remote servers with own passwords, nonces 1..64 bytes, RSA 1024/1536/2048/3072 (4096 in the thorough tier), remote servers configured from one shared slice in half the cases, packet sizes announced by the server 256..4096. Oracles: (1) the login record's password slot (offset 62, 30+1 bytes) is all zero; (2) non-interference: a second login identical except for same-length passwords produces byte-identical traffic outside the LONGBINARY ciphertexts located by the independent decoder; (3) a password >= 6 bytes that is not a substring of another configured field occurs in no written byte and in no error text of failing logins; (4) the peer decrypts (RSA-OAEP/SHA-1, empty label) every ciphertext to nonce||secret: account password (LOGPWD3 and first REMPWD3 entry), each remote password, a 32-byte session key; (5) freshness: no two ciphertexts of a login are equal (the account password is sent twice, remote passwords may equal the account's or each other's), session keys of the two logins differ; the same for 2..8 logins running concurrently; (6) control: in the plain flow the password IS in the slot. Non-trivial: password length >= 1; distinct by (password, config)")
 	vh.Assume("crypto randomness is not reproducible by seed: the case stores key and nonce, the oracles do not depend on particular random bytes; capability masks are compared semantically (the library writes the mask types in map order)")
+	vh.Rule("also: failing logins cover the refusals of the first reply one by one (unknown cipher suite, 2 / 4 / no parameters, parameters of the wrong type, LOGINACK(FAIL) at once, garbled key, wrong message id) and of the second (login failed, all-zero capabilities); oracle (3) applies to each error text")
 	vh.Rule("also: 20..1030 logins (10010 in the thorough tier) in one process, each on its own connection: no session key and no ciphertext is ever sent twice")
 	vh.Rule("also: Info.TLSEnable set (a quarter of the cases); nonces of capacity-31..capacity bytes (room for short secrets, not for the 32-byte session key): the login has to fail and nothing sent may decrypt to anything but nonce||secret")
 	vh.Rule("also: histories over one connection with ONE LoginConfig object reused (members reassigned), earlier logins in the plain flow; the password slot of every encrypted login's record is empty")
@@ -77,7 +78,33 @@ func script(c c09Case) loginpeer.Script {
 	if c.Reject == "wrong-msgid" {
 		msgid = 30
 	}
-	s.R1 = append(s.R1, ack(rc.LogNegotiate), rc.P{Msg: &rc.Msg{Status: 1, ID: msgid}}, rc.P{Fmt: &f}, rc.P{Row: &row}, done)
+	// further refusals, each met by a different error return of Login before the second message
+	switch c.Reject {
+	case "unknown-suite":
+		row.Cells[0].V.I = []int64{0, 2, 3, 7, 255, -1}[len(c.Nonce)%6]
+	case "two-params":
+		f.Cols, row.Cells = f.Cols[:2], row.Cells[:2]
+	case "four-params":
+		f.Cols = append(f.Cols, rc.Col{Name: "x", T: rc.TInt4})
+		row.Cells = append(row.Cells, rc.Cell{V: rc.V{T: rc.TInt4, I: 7}})
+	case "suite-not-int":
+		f.Cols[0] = rc.Col{Name: "c", T: rc.TLongBinary, MaxLen: 2147483647}
+		row.Cells[0] = rc.Cell{V: rc.V{T: rc.TLongBinary, B: []byte{1, 0, 0, 0}}}
+	case "key-not-binary":
+		f.Cols[1] = rc.Col{Name: "k", T: rc.TInt4}
+		row.Cells[1] = rc.Cell{V: rc.V{T: rc.TInt4, I: 1}}
+	case "nonce-not-binary":
+		f.Cols[2] = rc.Col{Name: "n", T: rc.TInt4}
+		row.Cells[2] = rc.Cell{V: rc.V{T: rc.TInt4, I: 1}}
+	}
+	first := ack(rc.LogNegotiate)
+	if c.Reject == "refused-at-once" {
+		first = ack(rc.LogFail)
+	}
+	s.R1 = append(s.R1, first, rc.P{Msg: &rc.Msg{Status: 1, ID: msgid}}, rc.P{Fmt: &f}, rc.P{Row: &row}, done)
+	if c.Reject == "no-params" {
+		s.R1 = append(s.R1[:len(s.R1)-2], done)
+	}
 	req := rc.CapMask{Type: 1, Mask: make([]byte, 14)}
 	res := rc.CapMask{Type: 2, Mask: make([]byte, 8)}
 	if c.Reject != "zero-caps" {
@@ -93,6 +120,10 @@ func script(c c09Case) loginpeer.Script {
 	s.R2 = append(s.R2, ack(st), rc.P{Cap: &rc.Capability{Masks: []rc.CapMask{req, res}}}, done)
 	return s
 }
+
+// earlyReject: refusals that end the login before the client sends its second message
+var earlyReject = map[string]bool{"garbled-key": true, "wrong-msgid": true, "unknown-suite": true, "two-params": true, "four-params": true,
+	"suite-not-int": true, "key-not-binary": true, "nonce-not-binary": true, "refused-at-once": true, "no-params": true}
 
 func cfg(c c09Case, pw []byte) loginpeer.Config {
 	l := loginpeer.Config{User: c.User, Password: string(pw), Host: c.Host, App: c.App, Server: "srv", Plain: c.Plain, TLS: c.TLS}
@@ -294,7 +325,7 @@ func runCase(c c09Case) *vh.Failure {
 		if c.TLS {
 			vh.Label("tls-enabled-in-the-connection-description")
 		}
-		if c.Reject == "garbled-key" || c.Reject == "wrong-msgid" || !fits {
+		if earlyReject[c.Reject] || !fits {
 			return nil // the client never sent the second message
 		}
 	} else if res.Err != nil {
@@ -507,7 +538,7 @@ func genCase(rt *rapid.T) c09Case {
 		c.PackSize = rapid.SampledFrom([]int{256, 512, 1024, 2048, 4096}).Draw(rt, "ps")
 	}
 	if rapid.IntRange(0, 4).Draw(rt, "reject?") == 0 {
-		c.Reject = rapid.SampledFrom([]string{"login-failed", "zero-caps", "garbled-key", "wrong-msgid"}).Draw(rt, "reject")
+		c.Reject = rapid.SampledFrom([]string{"login-failed", "zero-caps", "garbled-key", "wrong-msgid", "unknown-suite", "two-params", "four-params", "suite-not-int", "key-not-binary", "nonce-not-binary", "refused-at-once", "no-params"}).Draw(rt, "reject")
 	}
 	return c
 }
